@@ -967,8 +967,18 @@ class InspectFunction(object):
         # For now, do not look carefully at the arguments, just parse the arguments of
         # the functions.
         # TODO: add more arguments if we can parse constant arguments
+        named_args = get_arg_ctx_ast(caller_fun, [], OrderedDict())
+        # The arguments that are passed explicitly are only known at run time: they must not be
+        # replaced by the default values of the parameters (the call context accounts for them).
+        unpack = any(isinstance(a, ast.Starred) for a in node.args) or any(
+            kw.arg is None for kw in node.keywords
+        )
+        passed_by_name = set(kw.arg for kw in node.keywords)
+        for (idx, arg_name) in enumerate(list(named_args.keys())):
+            if unpack or idx < len(node.args) or arg_name in passed_by_name:
+                named_args[arg_name] = None
         arg_ctx = FunctionArgContext(
-            named_args=get_arg_ctx_ast(caller_fun, [], OrderedDict()),
+            named_args=named_args,
             inner_call_key=context_sig,
         )
         new_call_stack = call_stack + [caller_fun_path]
